@@ -13,3 +13,15 @@ import J2M.Registry
 import J2M.Structure
 import J2M.Pipeline
 import J2M.Render
+import J2M.Lex
+import J2M.Header
+import J2M.Props.HashInj
+-- import J2M.Props.C01  -- (being repaired after the mergeOne change)
+-- import J2M.Props.C02
+import J2M.Props.C05
+-- import J2M.Props.C07
+-- import J2M.Props.C08
+-- import J2M.Props.C09
+import J2M.Props.C10
+import J2M.Props.C13
+import J2M.Props.C19
